@@ -82,6 +82,11 @@ func runDoc(d *replayDoc) (*Verdict, error) {
 
 // replayOne implements `./check CNN --replay <file>`: exit 1 + VIOLATION if it still fails.
 func (r *Rec) replayOne(path string) int {
+	if os.Getenv("VK_REPLAY_CHILD") != "" {
+		// an isolated replay exists to let the process die: with the default 1 GB stack limit an
+		// unbounded recursion needs seconds and a gigabyte to get there
+		debug.SetMaxStack(128 << 20)
+	}
 	if !filepath.IsAbs(path) {
 		path = filepath.Join(r.Root, path)
 	}
@@ -163,6 +168,9 @@ func (r *Rec) replayOne(path string) int {
 //   - file fails otherwise (in particular: the repro of a "fixed" entry): VIOLATION
 //   - file passes: silent
 func (r *Rec) regress() {
+	if r.Shard != 0 {
+		return // the shards of a thorough run share one regress tier: shard 0 runs it
+	}
 	dir := filepath.Join(r.Root, "regress", r.ID)
 	ents, err := os.ReadDir(dir)
 	if err != nil {
@@ -183,7 +191,7 @@ func (r *Rec) regress() {
 		}
 		var v *Verdict
 		if d.Isolate {
-			v, err = isolated(path, 30)
+			v, err = isolated(path, 120)
 		} else {
 			v, err = runDoc(d)
 		}
@@ -228,7 +236,7 @@ func (r *Rec) regress() {
 // watchdog → class "hang".
 func isolated(path string, budgetSec int) (*Verdict, error) {
 	cmd := exec.Command(os.Args[0], "-test.run", "^$")
-	cmd.Env = append(os.Environ(), "VK_REPLAY="+path, fmt.Sprintf("VK_REPLAY_TIMEOUT=%d", budgetSec), "VK_CURRENT=", "VK_REPLAY_ISOLATE=")
+	cmd.Env = append(os.Environ(), "VK_REPLAY="+path, fmt.Sprintf("VK_REPLAY_TIMEOUT=%d", budgetSec), "VK_CURRENT=", "VK_REPLAY_ISOLATE=", "VK_REPLAY_CHILD=1")
 	out, runErr := cmd.CombinedOutput()
 	for _, line := range strings.Split(string(out), "\n") {
 		if strings.HasPrefix(line, "VERDICT-JSON ") {
